@@ -1712,18 +1712,24 @@ func (env *LEnv) call(ctx context.Context, fun *LVal, args *LVal) *LVal {
 	if fn != nil {
 		// Bridge ctx onto env so builtins that call env.Eval() pick it up.
 		// Save and restore to prevent stale ctx from leaking after the
-		// builtin returns.
+		// builtin returns.  The restore is deferred so that it also happens
+		// when the builtin panics, and it covers the terminal expression
+		// below, which may run in this same env.
 		prev := env.evalCtx
 		env.evalCtx = ctx
+		defer func() { env.evalCtx = prev }()
 		val := fn(env, list)
-		env.evalCtx = prev
 		if val == nil {
 			return env.Errorf("internal error: builtin %s returned nil", env.GetFunName(fun))
 		}
 		if val.Type == LMarkTerminal {
 			env.Runtime.Stack.Top().Terminal = true
 			termEnv := val.Native.(*LEnv)
-			termEnv.evalCtx = ctx
+			if termEnv != env {
+				prevTerm := termEnv.evalCtx
+				termEnv.evalCtx = ctx
+				defer func() { termEnv.evalCtx = prevTerm }()
+			}
 			return termEnv.eval(ctx, val.Cells[0])
 		}
 		return val
